@@ -77,7 +77,9 @@ R3.update({
  "C20-3": ("pynmon format_serialized_arguments truncates long values in place", "in-memory state backend, an inline argument longer than 500 characters, GET of that call's detail page"),
 })
 ALL = {**{k: v for k, v in DESC.items()}, **R2, **R3}
-NOTES.update({})
+NOTES.update({k: "suite with the change: only timing-sensitive tests failed (test_parallel_performance / test_distributed_cpu_work_performance / test_runner_reroutes_on_real_os_signal / "
+                 "test_task_execution[SQLite MultiThread] / pynmon server start-up), each passed when re-run alone; they fail intermittently on the unchanged tree under load as well"
+              for k in ("C01-2", "C02-2", "C06-2", "C07-2", "C15-2", "C17-2", "C18-2", "C20-2", "C04-3", "C20-3")})
 import glob
 for d in sorted(glob.glob("seeded/*/")):
     name = d.rstrip("/").split("/")[-1]
@@ -93,7 +95,7 @@ for d in sorted(glob.glob("seeded/*/")):
         if not os.path.exists(path):
             return []
         return [l.strip()[:200] for l in open(path, errors="replace").read().splitlines() if re.search(pat, l)]
-    confirm = lines(f"{src}/confirm.log", r"^== |^exit=|patch applied|^FAILED|^ERROR pynenc|\d+ passed|\d+ failed")
+    confirm = lines(f"{src}/confirm.log", r"^== |^exit=|patch applied|^FAILED|^ERROR pynenc|\d+ passed|\d+ failed") or lines(f"{d}confirm.log", r"^== |^exit=|patch applied|^FAILED|^ERROR pynenc|\d+ passed|\d+ failed")
     extra = lines(f"{src}/retest.log", r"== retest|\d+ passed|\d+ failed") + lines(f"{src}/resuite.log", r"^== |^FAILED|^ERROR pynenc|\d+ passed|\d+ failed")
     if not confirm and isinstance(old.get("confirmed_by_me", {}).get("demo_and_suite"), list):
         confirm = old["confirmed_by_me"]["demo_and_suite"]; extra = extra or old["confirmed_by_me"].get("failed_tests_rerun_or_suite_rerun", [])
